@@ -44,6 +44,10 @@ func (valdec sliceDecoder) Decode(dec *Decoder, p interface{}, tag byte) {
 		n := dec.preallocList(count, valdec.et.Size())
 		valdec.t.UnsafeGrow(slice, n)
 		dec.AddReference(p)
+		if n < count {
+			dec.growing = append(dec.growing, slice)
+			defer func() { dec.growing = dec.growing[:len(dec.growing)-1] }()
+		}
 		for i := 0; i < count && dec.Error == nil; i++ {
 			if i == n {
 				// more elements than the count alone could justify: grow as they arrive
